@@ -189,9 +189,11 @@ func (c *CodeBuilder) emitClearReg(m lexicalScope) {
 
 // PushCloseAction emits a PushCloseStack instruction and updates the current
 // lexical context accordingly
-func (c *CodeBuilder) PushCloseAction(reg Register) {
+func (c *CodeBuilder) PushCloseAction(reg Register, line int) {
 	c.context.addHeight(1)
-	c.EmitNoLine(PushCloseStack{Src: reg})
+	// This instruction can fail at run time (value without a __close
+	// metamethod), so it needs a line.
+	c.Emit(PushCloseStack{Src: reg}, line)
 }
 
 // HasPendingCloseActions returns true if there are close actions in the current
